@@ -201,6 +201,65 @@ func classPurity(orig, _ string) string {
 	return "unclassified"
 }
 
+var tsRe = regexp.MustCompile(`tS(\d+)\(`)
+
+// fmtOperand: operands for the fmt-related rewrite rules: plain strings, and defined string types with every
+// subset of the methods fmt consults (String, Error, Format, GoString), a pointer with a String method, nil
+func fmtOperand(p func(...string) string) string {
+	if p("plain", "cat", "cat", "cat") == "plain" {
+		return p("s", "fs()", "ms", "string(bs)", `"a%b"`, "(&pS{s})", "(*pS)(nil)", "a", "p")
+	}
+	k := p("0", "1", "2", "3", "4", "5", "6", "7", "8", "9", "10", "11", "12", "13", "14", "15")
+	return "tS" + k + "(" + p("s", `"x"`, "fs()") + ")"
+}
+
+// fmtClass names the cause: which method of the operand fmt consults before the one the rewrite relies on
+func fmtClass(orig, repl string) string {
+	viaString := strings.HasSuffix(strings.TrimSpace(repl), ".String()") || strings.Contains(repl, ".String())")
+	if m := tsRe.FindStringSubmatch(orig); m != nil {
+		k, _ := strconv.Atoi(m[1])
+		switch {
+		case viaString && k&4 != 0:
+			return "formatter-before-stringer"
+		case viaString && k&2 != 0:
+			return "error-before-stringer"
+		case !viaString && k != 0:
+			return "defined-string-with-methods"
+		}
+		return "defined-string-" + exprgen.FmtMethods(k)
+	}
+	switch {
+	case strings.Contains(orig, "(*pS)(nil)"):
+		return "nil-pointer-stringer"
+	case strings.Contains(orig, "pS{"):
+		return "pointer-stringer"
+	}
+	return classPurity(orig, "")
+}
+
+// rules rewriting fmt calls (oracle only): the result depends on the operand's method set
+var fmtSpecs = []ruleSpec{
+	{checker: "redundantSprint", kind: "expr", weight: 4,
+		gen: func(p func(...string) string) string {
+			x := fmtOperand(p)
+			return p("fmt.Sprint("+x+")", `fmt.Sprintf("%s", `+x+")", `fmt.Sprintf("%v", `+x+")")
+		},
+		rewrite: fromQuickFix, class: fmtClass},
+	{checker: "preferFprint", kind: "stmts", weight: 2,
+		gen: func(p func(...string) string) string {
+			x := fmtOperand(p)
+			call := p("fmt.Sprint("+x+", a)", `fmt.Sprintf("%v|%s", `+x+", t)", "fmt.Sprintln("+x+")")
+			switch p("w", "io", "ws") {
+			case "w":
+				return "bw := &bytes.Buffer{}; bw.Write([]byte(" + call + ")); s = bw.String()"
+			case "ws":
+				return "bw := &bytes.Buffer{}; bw.WriteString(" + call + "); s = bw.String()"
+			}
+			return "bw := &strings.Builder{}; bw.WriteString(" + call + "); s = bw.String()"
+		},
+		rewrite: fromQuickFix, class: fmtClass},
+}
+
 // hand-written checkers whose diagnostics promise an equivalent rewrite (oracle only)
 var handSpecs = []ruleSpec{
 	{checker: "underef", kind: "stmts",
@@ -447,9 +506,9 @@ var ruleSpecs = append([]ruleSpec{
 			}
 			return body, strings.Replace(body, "switch true {", "switch {", 1), true
 		}, class: classPurity},
-}, handSpecs...)
+}, append(handSpecs, fmtSpecs...)...)
 
-const rulesLintHeader = "package p\n\nimport (\n\t\"bytes\"\n\t\"strings\"\n\t\"time\"\n)\n\nvar _ = bytes.Equal\nvar _ = strings.Index\nvar _ time.Time\n"
+const rulesLintHeader = "package p\n\nimport (\n\t\"bytes\"\n\t\"fmt\"\n\t\"strings\"\n\t\"time\"\n)\n\nvar _ = bytes.Equal\nvar _ = strings.Index\nvar _ time.Time\nvar _ = fmt.Sprint\n"
 
 func runRules(meta *common.Meta, tier string, seed int64, outDir string) {
 	// ---- tie: the rule source shipped in checkers/rules/rules.go vs the model's table
@@ -528,12 +587,12 @@ func runRules(meta *common.Meta, tier string, seed int64, outDir string) {
 	}
 	var keep []*ruleProg
 	for _, p := range progs {
-		if _, err := exprgen.Load("p.go", rulesLintHeader+exprgen.LintPreamble+render(p)); err == nil {
+		if _, err := exprgen.Load("p.go", rulesLintHeader+exprgen.LintPreamble+exprgen.FmtCatalogue()+render(p)); err == nil {
 			keep = append(keep, p)
 		}
 	}
 	var src strings.Builder
-	src.WriteString(rulesLintHeader + exprgen.LintPreamble)
+	src.WriteString(rulesLintHeader + exprgen.LintPreamble + exprgen.FmtCatalogue())
 	byFn := map[string]*ruleProg{}
 	for _, p := range keep {
 		src.WriteString(render(p))
